@@ -216,14 +216,14 @@ Lemma place_sk eps s sid k p nid :
   let f := bool_decide (is_Some (jobs s !! t_job p)) in
   let p2 := placed_obj s k p nid in
   exists (ok b : bool) (s4 : sess), placed_state eps s p p2 nid s4 /\
-    stmts s4 = stmts s /\ binds s4 = binds s /\ evicts s4 = evicts s /\ saved s4 = saved s /\
+    stmts s4 = stmts s /\ binds s4 = binds s /\ evicts s4 = evicts s /\ (saved s4 = saved s /\ refuse_bind s4 = refuse_bind s) /\
     b = bool_decide (t_id p ∈ herr s) /\
     place_with eps s sid k p nid =
       if f && ok && negb b then (push_op s4 sid k (t_id p) Pending, ROk) else (unallocate_with s4 p2, RErr).
 Proof.
   intros (Hh & Hjobs & Hnodes) Hjk Hl. cbv zeta. unfold place_with, placed_obj. fold (place_status k).
   destruct (update_sk s p (place_status k) Hjk Hl) as (f & s1 & -> & Hf & Hh1 & Hjv1 & Hjk1 & Ho1).
-  rewrite <- Hf. apply others_inv in Ho1 as (Hn1 & Hs1 & Hl1 & He1 & _ & _ & Hb1 & Hev1 & Hst1 & Hsv1 & _).
+  rewrite <- Hf. apply others_inv in Ho1 as (Hn1 & Hs1 & Hl1 & He1 & Hrb1 & _ & Hb1 & Hev1 & Hst1 & Hsv1 & _).
   set (p1 := if f then set_status p (place_status k) else p).
   assert (Hp1 : t_id p1 = t_id p /\ t_job p1 = t_job p /\ t_req p1 = t_req p) by (unfold p1; destruct f; repeat split).
   destruct Hp1 as (Hid1 & Hjob1 & Hreq1).
@@ -233,7 +233,7 @@ Proof.
   assert (Hh2 : heap (put_task s1 p2) = <[t_id p := p2]> (heap s)).
   { simpl. rewrite Hh1, Hid1, insert_insert. reflexivity. }
   assert (Hfail : exists s4, placed_state eps s p p2 nid s4 /\
-            stmts s4 = stmts s /\ binds s4 = binds s /\ evicts s4 = evicts s /\ saved s4 = saved s /\
+            stmts s4 = stmts s /\ binds s4 = binds s /\ evicts s4 = evicts s /\ (saved s4 = saved s /\ refuse_bind s4 = refuse_bind s) /\
             (let '(herr_, s4') := h_alloc (put_task s1 p2) p2 in
              if f && false && negb herr_ then (push_op s4' sid k (t_id p) Pending, ROk) else (unallocate_with s4' p2, RErr)) =
             (unallocate_with s4 p2, RErr)).
@@ -241,7 +241,7 @@ Proof.
     - unfold h_alloc. rewrite andb_false_r. reflexivity.
     - split; [exact Hh2|]. split; [exact Hjv1|]. split; [exact Hjk1|]. split; [left; exact Hn1|].
       simpl. rewrite Hs1, Hjob1, Hreq1. reflexivity.
-    - exact Hst1. - exact Hb1. - exact Hev1. - exact Hsv1. }
+    - exact Hst1. - exact Hb1. - exact Hev1. - split; [exact Hsv1|exact Hrb1]. }
   destruct (nodes s !! nid) as [n|] eqn:En.
   - destruct (node_add eps n p2) as [[n' q]|e] eqn:Ea.
     + destruct (node_add_spec _ _ _ _ _ Ea) as (Hq & _). destruct (Hnodes _ _ En) as [Hnid _].
@@ -252,11 +252,264 @@ Proof.
       * split; [simpl; rewrite Hh1, Hid1, !insert_insert; reflexivity|]. split; [exact Hjv1|]. split; [exact Hjk1|].
         split; [right; exists n, n', p2; split; [first [exact En|reflexivity]|]; split; [exact Ea|]; simpl; rewrite ?Hn1; reflexivity|].
         simpl. rewrite Hs1, Hjob1, Hreq1. reflexivity.
-      * exact Hst1. * exact Hb1. * exact Hev1. * exact Hsv1.
+      * exact Hst1. * exact Hb1. * exact Hev1. * split; [exact Hsv1|exact Hrb1].
     + destruct Hfail as (s4 & H1 & H2 & H3 & H4 & H5 & H6).
       exists false, (bool_decide (t_id p ∈ herr s)), s4. rewrite andb_false_r. simpl.
       repeat (split; [assumption|]). split; [reflexivity|]. rewrite <- H6. unfold h_alloc. rewrite !andb_false_r. reflexivity.
   - destruct Hfail as (s4 & H1 & H2 & H3 & H4 & H5 & H6).
     exists false, (bool_decide (t_id p ∈ herr s)), s4. rewrite andb_false_r. simpl.
     repeat (split; [assumption|]). split; [reflexivity|]. rewrite <- H6. unfold h_alloc. rewrite !andb_false_r. reflexivity.
+Qed.
+
+(* the call sites' precondition of Allocate / Pipeline: a Pending task on no node (here: not on
+   the target node), member of its job if the session knows the job *)
+Definition placeable (s : sess) (p : task) (nid : positive) : Prop :=
+  heap s !! t_id p = Some p /\ t_status p = Pending /\ t_node p = None /\ jknown s p /\
+  (forall n, nodes s !! nid = Some n -> n_tasks n !! t_id p = None).
+
+(* 4. a failed Statement.Allocate / Pipeline (unknown job, unknown node, node refusing the task,
+   handler error) leaves no trace *)
+Theorem failed_place_no_trace eps s sid k p nid s' :
+  sess_ok s -> placeable s p nid ->
+  place_with eps s sid k p nid = (s', RErr) ->
+  sess_eqv s s' /\ stmts s' = stmts s /\ binds s' = binds s /\ evicts s' = evicts s /\ saved s' = saved s.
+Proof.
+  intros Hok (Hl & Hst & Hnd & Hjk & Hoff) Hplace.
+  pose proof (sess_ok_place eps s sid k p nid Hok Hl) as Hok'. rewrite Hplace in Hok'. simpl in Hok'.
+  destruct (place_sk eps s sid k p nid (proj1 Hok) Hjk Hl) as (ok & b & s4 & Hps & Hst4 & Hb4 & He4 & (Hsv4 & _) & _ & Heq).
+  rewrite Heq in Hplace. destruct (_ && negb b); [discriminate|]. injection Hplace as <-.
+  destruct (undo_place eps s k p nid s4 Hl Hst Hnd Hjk Hoff Hps) as (H1 & H2 & H3 & H4 & H5 & H6 & H7 & H8).
+  split; [apply sk_sess_eqv; auto; [exact (proj1 Hok)|exact (proj1 Hok')]|].
+  split; [congruence|]. split; [congruence|]. split; congruence.
+Qed.
+
+Lemma sess_ok_step eps s o : sess_ok s -> sess_ok (fst (step eps s o)).
+Proof. intros (Hl & Hw & Hs). apply ledger_inv_step; assumption. Qed.
+
+Lemma discard_single eps s sid o :
+  default [] (stmts s !! sid) = [o] -> stmt_discard eps s sid = (let s' := undo_op eps s o in upd_stmts s' (<[sid := []]> (stmts s'))).
+Proof. intros H. unfold stmt_discard. rewrite H. reflexivity. Qed.
+
+(* 5a / 6. Discard of a statement holding one Allocate / Pipeline restores the session; a bind
+   refused in Commit does the same *)
+Theorem discard_restores_place eps s sid k p nid s1 :
+  sess_ok s -> placeable s p nid -> k <> KEvict -> default [] (stmts s !! sid) = [] ->
+  place_with eps s sid k p nid = (s1, ROk) ->
+  sess_eqv s (stmt_discard eps s1 sid) /\ sess_eqv s (undo_op eps s1 (mkOp k (t_id p) Pending)) /\
+  binds (stmt_discard eps s1 sid) = binds s /\ evicts (stmt_discard eps s1 sid) = evicts s /\
+  (t_id p ∈ refuse_bind s -> k = KAllocate ->
+     commit_op eps s1 (mkOp k (t_id p) Pending) = undo_op eps s1 (mkOp k (t_id p) Pending)).
+Proof.
+  intros Hok (Hl & Hst & Hnd & Hjk & Hoff) Hk Hemp Hplace.
+  pose proof (sess_ok_place eps s sid k p nid Hok Hl) as Hok1. rewrite Hplace in Hok1. simpl in Hok1.
+  destruct (place_sk eps s sid k p nid (proj1 Hok) Hjk Hl) as (ok & b & s4 & Hps & Hst4 & Hb4 & He4 & (Hsv4 & Hrb4) & _ & Heq).
+  rewrite Heq in Hplace. destruct (_ && negb b); [|discriminate]. injection Hplace as <-.
+  set (s1 := push_op s4 sid k (t_id p) Pending) in *.
+  set (p2 := placed_obj s k p nid).
+  assert (Hid2 : t_id p2 = t_id p) by (unfold p2, placed_obj; destruct (bool_decide _); reflexivity).
+  assert (Hps1 : placed_state eps s p p2 nid s1) by exact Hps.
+  assert (Hl1 : heap s1 !! t_id p = Some p2) by (destruct Hps1 as (-> & _); apply lookup_insert).
+  assert (Hundo : undo_op eps s1 (mkOp k (t_id p) Pending) = unallocate_with s1 p2).
+  { unfold undo_op. cbn [op_task op_kind]. rewrite Hl1. destruct k; [congruence|reflexivity|reflexivity]. }
+  destruct (undo_place eps s k p nid s1 Hl Hst Hnd Hjk Hoff Hps1) as (H1 & H2 & H3 & H4 & H5 & H6 & H7 & H8).
+  fold p2 in H1, H2, H3, H4, H5, H6, H7, H8. rewrite <- Hundo in *.
+  assert (Hops : default [] (stmts s1 !! sid) = [mkOp k (t_id p) Pending]).
+  { unfold s1, push_op. simpl. rewrite lookup_insert. simpl. rewrite Hst4, Hemp. reflexivity. }
+  pose proof (sess_ok_step eps s1 (ODiscard sid) Hok1) as Hok2. simpl in Hok2.
+  rewrite (discard_single eps s1 sid _ Hops) in *. cbv zeta in *.
+  split; [|split; [|split; [|split]]].
+  - apply sk_sess_eqv; [exact (proj1 Hok)|exact (proj1 Hok2)|symmetry; exact H1|symmetry; exact H2|symmetry; exact H3|exact H4].
+  - apply sk_sess_eqv; [exact (proj1 Hok)|exact (proj1 Hok2)|symmetry; exact H1|symmetry; exact H2|symmetry; exact H3|exact H4].
+  - simpl. rewrite H6. simpl. exact Hb4.
+  - simpl. rewrite H7. simpl. exact He4.
+  - intros Hr ->. rewrite Hundo. unfold commit_op. cbn [op_task op_kind]. rewrite Hl1, Hid2.
+    rewrite bool_decide_eq_true_2; [reflexivity|]. change (refuse_bind s1) with (refuse_bind s4). rewrite Hrb4. exact Hr.
+Qed.
+
+(* ---------- 3. nothing of an undecided transaction reaches the binder / evictor ---------- *)
+
+Definition lg (s : sess) := (binds s, evicts s).
+
+Lemma lg_update s p st f s' p' : ssn_update_status s p st = (f, s', p') -> lg s' = lg s.
+Proof.
+  unfold ssn_update_status. destruct (jobs s !! t_job p); [destruct (job_update _ _ _ _)|]; intros [= <- <- <-]; reflexivity.
+Qed.
+
+Lemma lg_node_update eps s p s' p' f : ssn_node_update eps s p = (s', p', f) -> lg s' = lg s.
+Proof.
+  unfold ssn_node_update. destruct (t_node p); [destruct (nodes s !! _); [destruct (node_update _ _ _) as [[? ?]|?]|]|];
+    intros [= <- <- <-]; reflexivity.
+Qed.
+
+Lemma lg_node_remove s p : lg (ssn_node_remove s p) = lg s.
+Proof. unfold ssn_node_remove. destruct (t_node p); [destruct (nodes s !! _)|]; reflexivity. Qed.
+
+Lemma lg_unallocate s p : lg (unallocate_with s p) = lg s.
+Proof.
+  unfold unallocate_with. destruct (ssn_update_status s p Pending) as [[f s1] p1] eqn:E.
+  apply lg_update in E. change (lg (ssn_node_remove s1 p1) = lg s). rewrite lg_node_remove. exact E.
+Qed.
+
+Lemma lg_unevict eps s p prev : lg (fst (unevict_with eps s p prev)) = lg s.
+Proof.
+  unfold unevict_with. destruct (ssn_update_status s p _) as [[f s1] p1] eqn:E. apply lg_update in E.
+  destruct (ssn_node_update eps s1 p1) as [[s2 p2] ft] eqn:E2. apply lg_node_update in E2.
+  simpl. change (lg s2 = lg s). congruence.
+Qed.
+
+Lemma lg_evict_with eps s sid p prev : lg (fst (stmt_evict_with eps s sid p prev)) = lg s.
+Proof.
+  unfold stmt_evict_with. destruct (ssn_update_status s p _) as [[f s1] p1] eqn:E. apply lg_update in E.
+  destruct (ssn_node_update eps s1 p1) as [[s2 p2] ft] eqn:E2. apply lg_node_update in E2.
+  simpl. change (lg s2 = lg s). congruence.
+Qed.
+
+Lemma lg_place eps s sid k p nid : lg (fst (place_with eps s sid k p nid)) = lg s.
+Proof.
+  unfold place_with. destruct (ssn_update_status s p _) as [[f s1] p1] eqn:E. apply lg_update in E.
+  set (p2 := set_node p1 (Some nid)). set (s2 := put_task s1 p2).
+  assert (H3 : forall s3 p3 ok,
+     match nodes s2 !! nid with
+     | Some n => match node_add eps n p2 with
+                 | inl (n', p') => (put_task (upd_nodes s2 (<[nid := n']> (nodes s2))) p', p', true)
+                 | inr _ => (s2, p2, false)
+                 end
+     | None => (s2, p2, false)
+     end = (s3, p3, ok) -> lg s3 = lg s).
+  { intros s3 p3 ok. destruct (nodes s2 !! nid); [destruct (node_add _ _ _) as [[? ?]|?]|]; intros [= <- <- <-]; exact E. }
+  destruct (match nodes s2 !! nid with Some n => _ | None => _ end) as [[s3 p3] ok] eqn:E3.
+  specialize (H3 _ _ _ eq_refl). unfold h_alloc. cbv beta iota zeta.
+  destruct (f && ok && negb _); simpl; [exact H3|]. rewrite lg_unallocate. exact H3.
+Qed.
+
+Lemma lg_fold (f : sess -> oprec -> sess) l s : (forall s o, lg (f s o) = lg s) -> lg (fold_left f l s) = lg s.
+Proof. intros Hf. revert s. induction l as [|o l IH]; simpl; intros s; [reflexivity|]. rewrite IH. apply Hf. Qed.
+
+Lemma lg_undo eps s o : lg (undo_op eps s o) = lg s.
+Proof.
+  unfold undo_op. destruct (heap s !! op_task o); [|reflexivity].
+  destruct (op_kind o); [apply lg_unevict|apply lg_unallocate|apply lg_unallocate].
+Qed.
+
+Lemma lg_recover_ops eps l s sid : lg (fst (recover_ops eps s sid l)) = lg s.
+Proof.
+  revert s. induction l as [|o r IH]; intros s; [reflexivity|]. simpl. destruct (so_kind o).
+  - destruct (stmt_evict_with eps s sid (so_task o) _) as [s1 res] eqn:E. rewrite IH.
+    change s1 with (fst (s1, res)). rewrite <- E. apply lg_evict_with.
+  - destruct (t_node (so_task o)) as [nid|]; [|reflexivity].
+    destruct (place_with eps s sid KPipeline (so_task o) nid) as [s1 res] eqn:E.
+    assert (H1 : lg s1 = lg s) by (change s1 with (fst (s1, res)); rewrite <- E; apply lg_place).
+    destruct res; try exact H1. rewrite IH. exact H1.
+  - destruct (t_node (so_task o)) as [nid|]; [|reflexivity].
+    destruct (place_with eps s sid KAllocate (so_task o) nid) as [s1 res] eqn:E.
+    assert (H1 : lg s1 = lg s) by (change s1 with (fst (s1, res)); rewrite <- E; apply lg_place).
+    destruct res; try exact H1. rewrite IH. exact H1.
+Qed.
+
+Lemma lg_ssn_pipeline eps jr s tid nid : lg (fst (ssn_place_with eps jr s KPipeline tid nid)) = lg s.
+Proof.
+  unfold ssn_place_with. destruct (heap s !! tid) as [p|]; [|reflexivity].
+  destruct (ssn_update_status s p _) as [[f s1] p1] eqn:E. apply lg_update in E.
+  destruct f; cbn [negb]; [|reflexivity].
+  set (p2 := set_node p1 (Some nid)). set (s2 := put_task s1 p2).
+  assert (Hrev : lg (let '(_, sr, pr) := ssn_update_status s2 p2 Pending in put_task sr (set_node pr None)) = lg s).
+  { destruct (ssn_update_status s2 p2 Pending) as [[fr sr] pr] eqn:Er. apply lg_update in Er.
+    change (lg sr = lg s). rewrite Er. exact E. }
+  destruct (nodes s2 !! nid); [|exact Hrev]. destruct (node_add _ _ _) as [[n' p3]|?]; [|exact Hrev].
+  unfold h_alloc. exact E.
+Qed.
+
+Definition touches_cache (o : op) : bool :=
+  match o with OCommit _ | OSsnAllocate _ _ | OSsnEvict _ => true | _ => false end.
+
+Theorem undecided_invisible eps s o :
+  touches_cache o = false ->
+  binds (fst (step eps s o)) = binds s /\ evicts (fst (step eps s o)) = evicts s.
+Proof.
+  intros Ht. assert (H : lg (fst (step eps s o)) = lg s); [|unfold lg in H; inversion H; auto].
+  destruct o; try discriminate; simpl.
+  - unfold stmt_allocate, with_task. destruct (heap s !! tid); [apply lg_place|reflexivity].
+  - unfold stmt_pipeline, with_task. destruct (heap s !! tid); [apply lg_place|reflexivity].
+  - unfold stmt_evict, with_task. destruct (heap s !! tid); [apply lg_evict_with|reflexivity].
+  - unfold stmt_evict_clone. destruct (heap s !! tid) as [p|]; [|reflexivity].
+    destruct (t_node p); [|reflexivity]. destruct (nodes s !! _) as [n|]; [|reflexivity].
+    destruct (n_tasks n !! tid); [apply lg_evict_with|reflexivity].
+  - unfold stmt_unpipeline, with_task. destruct (heap s !! tid); [apply lg_unallocate|reflexivity].
+  - unfold stmt_discard. change (lg (fold_left (undo_op eps) (rev (default [] (stmts s !! sid))) s) = lg s).
+    apply lg_fold. intros. apply lg_undo.
+  - unfold stmt_merge. case_bool_decide; reflexivity.
+  - reflexivity.
+  - unfold stmt_recover. destruct (recover_ops eps s sid _) as [s1 r] eqn:E. simpl.
+    change (lg s1 = lg s). change s1 with (fst (s1, r)). rewrite <- E. apply lg_recover_ops.
+  - apply lg_ssn_pipeline.
+  - reflexivity.
+  - reflexivity.
+  - reflexivity.
+Qed.
+
+(* ---------- 4b. Session.Allocate / Pipeline that cannot place the task ---------- *)
+
+Lemma sess_eqv_refl s : sess_eqv s s.
+Proof.
+  split; [|split; [|split]].
+  - intros i. destruct (heap s !! i); constructor. repeat split.
+  - intros i. destruct (jobs s !! i) as [j|]; constructor.
+    split; [reflexivity|]. split; [reflexivity|]. split; [apply res_eqv_refl|]. split; [apply res_eqv_refl|].
+    split; [reflexivity|]. intros k. destruct (j_subs j !! k); constructor. split; reflexivity.
+  - intros i. destruct (nodes s !! i) as [n|]; constructor.
+    repeat (split; [apply res_eqv_refl|]). intros k. destruct (n_tasks n !! k); constructor. repeat split.
+  - apply share_same_refl.
+Qed.
+
+Theorem failed_ssn_place_no_trace eps jr s k p nid :
+  sess_ok s -> heap s !! t_id p = Some p -> t_status p = Pending -> t_node p = None -> jknown s p ->
+  (jobs s !! t_job p = None \/ nodes s !! nid = None \/
+   exists n e, nodes s !! nid = Some n /\ node_add eps n (placed_obj s k p nid) = inr e) ->
+  let r := ssn_place_with eps jr s k (t_id p) nid in
+  snd r = RErr /\ sess_eqv s (fst r) /\ binds (fst r) = binds s /\ evicts (fst r) = evicts s /\
+  stmts (fst r) = stmts s /\ hlog (fst r) = hlog s.
+Proof.
+  intros Hok Hl Hst Hnd Hjk Hcause. cbv zeta.
+  assert (Hinv' : ledger_inv (fst (ssn_place_with eps jr s k (t_id p) nid))).
+  { destruct Hok as (Hl0 & Hw & Hs). exact (proj1 (good_ssn_place eps _ jr s k (t_id p) nid (good_init s Hl0 Hw Hs))). }
+  revert Hinv'. unfold ssn_place_with. rewrite Hl. fold (place_status k).
+  destruct (update_sk s p (place_status k) Hjk Hl) as (f & s1 & -> & Hf & Hh1 & Hjv1 & Hjk1 & Ho1).
+  destruct f; cbn [negb]; [|intros _; repeat split; apply sess_eqv_refl].
+  apply others_inv in Ho1 as (Hn1 & Hs1 & Hl1 & He1 & Hrb1 & _ & Hb1 & Hev1 & Hst1 & Hsv1 & _).
+  assert (Hfound : bool_decide (is_Some (jobs s !! t_job p)) = true) by (symmetry; exact Hf).
+  set (p2 := set_node (set_status p (place_status k)) (Some nid)).
+  assert (Hp2 : placed_obj s k p nid = p2) by (unfold placed_obj; rewrite Hfound; reflexivity).
+  set (s2 := put_task s1 p2).
+  assert (Hl2 : heap s2 !! t_id p2 = Some p2) by (simpl; apply lookup_insert).
+  assert (Hjk2 : jknown s2 p2) by (eapply (jknown_fields s1 s2 p p2); auto).
+  destruct (update_sk s2 p2 Pending Hjk2 Hl2) as (f' & sr & Er & Hf' & Hhr & Hjvr & _ & Hor).
+  apply others_inv in Hor as (Hnr & Hsr & Hlr & _ & _ & _ & Hbr & Hevr & Hstr & _ & _).
+  assert (Hf'' : f' = true).
+  { rewrite Hf'. change (jobs s2) with (jobs s1). rewrite <- (found_jv s s1 _ (eq_sym Hjv1)). exact Hfound. }
+  clear Hf'. subst f'.
+  assert (Hnode : nodes s2 !! nid = None \/ exists n e, nodes s2 !! nid = Some n /\ node_add eps n p2 = inr e).
+  { change (nodes s2) with (nodes s1). rewrite Hn1, <- Hp2.
+    destruct Hcause as [Hc|[Hc|Hc]]; [|left; exact Hc|right; exact Hc].
+    exfalso. rewrite Hc in Hfound. rewrite bool_decide_eq_false_2 in Hfound; [discriminate|]. intros [? ?]; discriminate. }
+  assert (Hres : match nodes s2 !! nid with
+                 | Some n => match node_add eps n p2 with inl _ => False | inr _ => True end
+                 | None => True end).
+  { destruct Hnode as [->|(n & e & -> & ->)]; exact I. }
+  set (srev := put_task sr (set_node (set_status p2 Pending) None)).
+  assert (Hgoal : ledger_inv srev -> sess_eqv s srev /\ binds srev = binds s /\ evicts srev = evicts s /\
+                  stmts srev = stmts s /\ hlog srev = hlog s).
+  { assert (Hb2 : binds sr = binds s) by (rewrite Hbr; exact Hb1).
+    assert (Hev2 : evicts sr = evicts s) by (rewrite Hevr; exact Hev1).
+    assert (Hst2 : stmts sr = stmts s) by (rewrite Hstr; exact Hst1).
+    assert (Hlg2 : hlog sr = hlog s) by (rewrite Hlr; exact Hl1).
+    intros Hinv. split; [|unfold srev; simpl; repeat split; assumption].
+    apply sk_sess_eqv; [exact (proj1 Hok)|exact Hinv| | | |].
+    - unfold hv, srev. simpl. rewrite Hhr. simpl. rewrite Hh1, !insert_insert, fmap_insert.
+      symmetry. apply insert_id. rewrite lookup_fmap, Hl. simpl. unfold hview. simpl. rewrite Hst, Hnd. reflexivity.
+    - unfold srev. change (jv s = jv sr). rewrite Hjvr. change (jv s = jv s1). congruence.
+    - unfold nv, srev. simpl. rewrite Hnr. simpl. rewrite Hn1. reflexivity.
+    - unfold srev. simpl. rewrite Hsr. simpl. rewrite Hs1. apply share_same_refl. }
+  fold p2. fold s2. rewrite Er.
+  destruct (nodes s2 !! nid) as [n|]; [destruct (node_add eps n p2) as [[? ?]|e]; [contradiction|]|];
+    simpl; intros Hinv; (split; [reflexivity|]); apply Hgoal; exact Hinv.
 Qed.
